@@ -286,6 +286,8 @@ def run(ctx):
             if v.get("fact", {}).get("inv"):
                 v["what"] = "incoming-link figure: " + v["what"]
                 viol.append(v)
+    # how a value is written does not depend on the direction: the regenerated `str_of_target_element` has no such input (Props/GenStrTune)
+    base.fragment_s_tie(ctx, dis, stats, ['serializer_str_of_target_element', 'serializer_tune_token'])
     return base.std_result(ctx, cases, viol, dis, base.known_lines(kf, set()), stats, nontriv, samples,
                            "per random graph (75 % IRI-only) and configuration: three fresh Shapers - G with inverse_paths, G without, "
                            "reverse(G) without; pairs examples_mode off / on with incoming links from untyped nodes; pairs remove_empty_shapes on / off "
